@@ -185,6 +185,7 @@ def _step(C):
         def on_model(env, rp=rp):
             return {"key": f"C09|{op}|values", "replay": dict(rp, env=env)}
 
+        C.concrete_trace(replay, dict(rp, env={}), f"C09|{op}|values|concrete")
         C.oblige(f"{tag}.path-semantics", CTX.pc + unit, z3.Or(*terms), on_model=on_model, inputs=inputs, nice=False, quat_groups=qg,
                  sample=f"{op} N={N} input length {n_in} start={start}: new path of length {L}, entry i derives from old entry {src}, input applied on {rng}")
 
@@ -232,6 +233,7 @@ def _setters(C):
                 C.obligations.append({"name": f"{which}.M{M}.length", "status": "sat", "note": f"{gotP.shape},{gotQ.shape} expected {np.shape(expP)},{np.shape(expQ)}"})
                 C.candidates.append({"key": f"C09|{which}|length", "replay": dict(rp, env={})})
                 continue
+            C.concrete_trace(replay, dict(rp, env={}), f"C09|{which}|values|concrete")
             C.oblige(f"{which}.N{N}->M{M}", CTX.pc + unit, z3.Or(neq_any(gotP, expP), neq_rot(gotQ, expQ)),
                      on_model=lambda env, rp=rp: {"key": f"C09|{which}|values", "replay": dict(rp, env=env)}, inputs=inputs, nice=False, quat_groups=qg,
                      sample=f"{which} with path length {M} on an object of path length {N}: the other path is edge-padded / end-sliced")
